@@ -84,7 +84,7 @@ func schedFamily(poolKind string, depth, bound, budget int) *core.Family {
 	size := n * n
 	decode := func(i uint64) []uint8 { return []uint8{al[i/n], al[i%n]} }
 	return &core.Family{
-		Name: fmt.Sprintf("A-sched-%s-depth%d-bound%d", poolKind, depth, bound), Size: size, HangSeconds: 300, BudgetSeconds: budget,
+		Name: fmt.Sprintf("A-sched-%s-depth%d-bound%d", poolKind, depth, bound), Size: size, HangSeconds: budget + 900, BudgetSeconds: budget,
 		Show: func(i uint64) string {
 			return "pool event histories starting with [" + histStr(decode(i)) + "], Go finalisers on their own goroutines, all schedules within the preemption bound"
 		},
